@@ -237,6 +237,8 @@ class Translator:
         v = e.value
         if isinstance(v, ast.Name) and v.id == cx.selfname:
             fields = self.classes[cx.cls]["fields"]
+            if e.attr in getattr(cx, "assigned_fields", []):
+                return (f"self_{e.attr}", fields[e.attr])
             if e.attr not in fields:
                 raise Unsupported(f"undeclared attribute self.{e.attr} (not in get_spec of {cx.cls})")
             if e.attr not in cx.used_fields:
@@ -291,8 +293,8 @@ class Translator:
                     return (s, F)
                 if ta == VF and n == 2:
                     return (f"(vmap fsq {a})", VF)
-                if ta == MR and n == 2:
-                    return (f"(map (vmap fsq) {a})", MR)
+                if ta in (MR, M) and n == 2:
+                    return (f"(map (vmap fsq) {a})", ta)
                 raise Unsupported(f"pow on {ta}")
             b, tb = self.expr(e.right, cx, binds)
             b = coerce(b, tb, F)
@@ -438,6 +440,8 @@ class Translator:
             s, t = self.expr(fn.value, cx, binds)
             if fn.attr == "sum" and t == VF and not e.args and not e.keywords:
                 return (f"(vsum {s})", F)
+            if fn.attr == "sum" and t == M and [k.arg for k in e.keywords] == ["axis"] and const_value(e.keywords[0].value) == 0:
+                return (f"(map vsum {s})", VF)
             if fn.attr == "any" and t == VB:
                 return (f"(existsb (fun b => b) {s})", B)
             if fn.attr == "astype" and t == VB:
@@ -484,9 +488,19 @@ class Translator:
                     if key in self.funcs:
                         e2 = ast.Call(func=fn, args=e.args, keywords=[kk for kk in e.keywords if kk is not k])
                         return self.apply(key, self.funcs[key], [], e2, cx, binds)
-        # ---- plain translated function
+        # ---- plain translated function (with overloads by argument type, e.g. ST_vec(x, scalar | vector))
         if isinstance(fn, ast.Name) and fn.id in self.funcs:
-            return self.apply(fn.id, self.funcs[fn.id], [], e, cx, binds)
+            keys = [fn.id] + [k for k in self.funcs if k.startswith(fn.id + "__ov")]
+            err = None
+            for key in keys:
+                b2 = []
+                try:
+                    r = self.apply(key, self.funcs[key], [], e, cx, b2)
+                    binds.extend(b2)
+                    return r
+                except Unsupported as u:
+                    err = err or u
+            raise err
         raise Unsupported(f"call {ast.unparse(fn)}")
 
     def apply(self, name, sig, pre, e, cx, binds):
@@ -510,7 +524,7 @@ class Translator:
                 out.append("x__")
             else:
                 out.append(coerce(s, t, pty))
-        callee = mg(name)
+        callee = mg(sig.get("coqname", name))
         for k, ty in sig.get("protocols", []):
             raise Unsupported(f"call to kernel {name} with object parameters")
         if lifted is not None:
@@ -673,6 +687,9 @@ class Translator:
         raise Unsupported(f"statement {type(s).__name__}")
 
     def store(self, tgt, value, augop, rest, cx, final):
+        if isinstance(tgt.value, ast.Attribute) and isinstance(tgt.value.value, ast.Name) \
+                and tgt.value.value.id == cx.selfname and f"self_{tgt.value.attr}" in cx.types:
+            tgt = ast.Subscript(value=ast.Name(id=f"self_{tgt.value.attr}", ctx=ast.Load()), slice=tgt.slice, ctx=tgt.ctx)
         if not isinstance(tgt.value, ast.Name):
             raise Unsupported("store target")
         arr = tgt.value.id
@@ -866,6 +883,8 @@ def assigned(stmts):
                 for tt in (t.elts if isinstance(t, ast.Tuple) else [t]):
                     if isinstance(tt, ast.Name): add(tt.id)
                     elif isinstance(tt, ast.Subscript) and isinstance(tt.value, ast.Name): add(tt.value.id)
+                    elif isinstance(tt, ast.Subscript) and isinstance(tt.value, ast.Attribute) \
+                            and isinstance(tt.value.value, ast.Name): add(f"{tt.value.value.id}_{tt.value.attr}")
         elif isinstance(s, ast.AugAssign):
             t = s.target
             add(t.id if isinstance(t, ast.Name) else (t.value.id if isinstance(t.value, ast.Name) else None))
